@@ -17,6 +17,7 @@ property is a failure as well ("returns an expression ... or reports failure").
 from __future__ import annotations
 
 import functools
+import itertools as itt
 import json
 import random
 
@@ -26,7 +27,13 @@ from .. import gen_graph as G
 from ..oracles import tian_scm as S
 
 PROP = "C17"
-RULE = ("ADMGs with 1-7 nodes (evaluated on SCMs up to 5 nodes in the quick tier, 6 in the thorough tier); every "
+RULE = ("STRUCTURED: districts grown to a prescribed IDENTIFY recursion depth 0-3 (4 in the thorough tier) with outside "
+        "parents Z / descendants, every form of Q[T] (P(T|Z), P(T|Pa), PP, P[Z](T), P[V\\T](T), mixed, redundant "
+        "children, Lemma-1 product, Lemma-4 ratios, top-level Fraction P(T,Z)/P(Z), Sum over descendants), all (<= 4/8 "
+        "sampled) linear extensions; direct calls of the five c-factor routines on V, ancestral sets and the recursion's "
+        "own (A, Q[A]) for every district, every expression form and orders chosen among all linear extensions (one "
+        "putting a variable outside the district last); every single-world probability P_w(T u E | Z) over small graphs "
+        "as candidate Q[T] (kept when it denotes Q[T]).  RANDOM: ADMGs with 1-7 nodes (evaluated on SCMs up to 5 nodes in the quick tier, 6 in the thorough tier); every "
         "district T; every C subset of T inducing a single district (sampled when there are many); 1-3 random linear "
         "extensions (optionally with extra names the graph does not contain); Q[T] given as a Probability P(T|Z) / "
         "population-tagged PP(T|Z) when T is a block of some topological order (Lemma-1 branch), in interventional form "
@@ -43,14 +50,14 @@ RULE = ("ADMGs with 1-7 nodes (evaluated on SCMs up to 5 nodes in the quick tier
 ASSUMPTIONS = [
     "all theorems are about the Lean model Y0.Model.Tian / Y0.Model.TianDsl (tian_id.py after fix 010d659); the tie to the Python is this run's correspondence sampling (structural comparison up to set / multiset order and x*1, x/1; evaluation fall-back on a shared model otherwise)",
     "model class of the theorems and of the oracle: discrete variables, positive rational parameters, independent root latents shared only across bidirected edges (Y0/Spec/Scm.lean); a population tag reads the same single-domain model; G acyclic (MG.Ranked) and well formed (MG.WF)",
-    "tian_sound / cfactor_lemma1_sound / cfactor_sound carry the hypothesis ProbShape when Q[T] (Q[H]) is given as a bare Probability: it must be P_w(T | Z) with children exactly T, all variables in one un-starred world w, and Z, w disjoint from T (Y0/Spec/TianSpec.lean). The Lemma-1 branch dispatches on the TYPE of the expression and never reads its children, so a Probability that equals Q[T] only by numerical coincidence in one model is outside the theorem; the version with the hypothesis quantified over all compatible models instead of ProbShape is OPEN (see the OPEN block in Props/C17.lean). Sum / Product / Fraction inputs carry no such hypothesis",
-    "starred variables / starred intervention subscripts (+X, counterfactual values) inside a Probability given as Q[T] are outside ProbShape; the harness does not generate them",
+    "tian_sound / cfactor_lemma1_sound / cfactor_sound carry the hypothesis ProbShape when Q[T] (Q[H]) is given as a bare Probability: it must be P_w(T u E | Z) - every member of T a child, further children E redundant (E inside Z u w), all variables in one un-starred world w, and Z, w disjoint from T (Y0/Spec/TianSpec.lean; weakened in round 2: redundant children allowed, Z and w need not be nodes). The Lemma-1 branch dispatches on the TYPE of the expression and reads only the parents and the children named in T, so a Probability that equals Q[T] only by numerical coincidence in one model is outside the theorem. cfactor_output_shape + tian_sound_ctftr_caller show that the only caller inside y0 (transport_district_intervening_on_parents) always supplies the shape: its Q[T] is the output of compute_c_factor. The version with the hypothesis quantified over all compatible models instead of ProbShape is OPEN (see the OPEN block in Props/C17.lean: believed true for the single-world environment M.env G; the harness generator semP enumerates every single-world Probability over small graphs, keeps those that denote Q[T] and checks IDENTIFY on them on every run). Sum / Product / Fraction inputs carry no such hypothesis",
+    "starred variables / starred intervention subscripts (+X, counterfactual values) inside a Probability given as Q[T] are outside ProbShape (the spelling -X in event position is inside); the harness does not generate either",
     "completeness ('None only when Q[C] is not identifiable from Q[T]') is not part of the property and not claimed",
     "set iteration order (frozenset of Variables) only affects the order of factors in a Product and of parents in a population-tagged Probability; both are compared as multisets / sets; Python's sorted() ties are modelled by a stable insertion sort",
     "graphs whose exact evaluation would need more than ~2e5 latent x observed assignments (dense bidirected parts on 6-7 nodes) are checked by correspondence and for exceptions only, not by evaluation",
 ]
 EXHAUSTIVE = {"quick": False, "thorough": False}
-LEANCHECK_MODULES = ["Y0.Model.Tian", "Y0.Model.TianDsl", "Y0.Lemmas.QFactor", "Y0.Lemmas.TianIdentify", "Y0.Lemmas.TianTotal", "Y0.Props.C17"]
+LEANCHECK_MODULES = ["Y0.Model.Tian", "Y0.Model.TianDsl", "Y0.Lemmas.QFactor", "Y0.Lemmas.TianIdentify", "Y0.Lemmas.TianTotal", "Y0.Lemmas.TianCallers", "Y0.Props.C17"]
 
 OPS = ["identify", "c_factor", "lemma1", "lemma4", "low_index", "ancestral"]
 
@@ -187,6 +194,8 @@ def _district_q_candidates(rng, g, T, V, di, want):
         out.append(("pprob", eP(T, Z, pop=1001)))
     if "prob_pa" in want and block:
         out.append(("prob_pa", eP(T, sorted(anc - set(T)))))
+    if "pprob_pa" in want and block:
+        out.append(("pprob_pa", eP(T, sorted(anc - set(T)), pop=1004)))
     if "prob_redundant" in want and block and Z:
         # P(T, W | Z) with W part of Z denotes the same function; outside ProbShape (oracle only)
         W = [z for z in Z if rng.random() < 0.5] or Z[:1]
@@ -204,6 +213,14 @@ def _district_q_candidates(rng, g, T, V, di, want):
         zs = list(Z)
         rng.shuffle(zs)
         out.append(("iprob_mixed", eP(T, sorted(zs[:k]), dos=sorted(zs[k:]))))
+    # the same conditional written as a top-level Fraction / Sum (Lemma-3 / Lemma-4 dispatch of IDENTIFY)
+    Dd = sorted(set(V) - set(T) - set(Z))
+    if "fracform" in want and block:
+        out.append(("fracform", ["frac", eP(T + Z), eP(Z) if Z else "one"]))
+    if "frac_sum" in want and block and Dd:
+        out.append(("frac_sum", ["frac", eSum(Dd, eP(sorted(V))), eP(Z) if Z else "one"]))
+    if "sum_desc" in want and block and Dd:
+        out.append(("sum_desc", eSum(Dd, eP(T + Dd, Z))))
     order = S.random_linear_extension(rng, V, di)
     pos = {v: i for i, v in enumerate(order)}
     if "prod" in want:
@@ -254,7 +271,7 @@ def _gen_valid(rng, tier, n_graphs, nmax_eval):
         base = {"g": g, "scm_seed": rng.randrange(1 << 30), "evaluate": evaluate, "q_by_construction": True}
         dists = S.districts_of(bi, V)
         for T in dists:
-            cands = _district_q_candidates(rng, g, T, V, di, want={"prob", "pprob", "prob_pa", "prob_redundant", "prod", "pprod", "frac", "sum", "iprob", "iprob_all", "ipprob", "iprob_mixed"})
+            cands = _district_q_candidates(rng, g, T, V, di, want=ALL_QFORMS)
             subs = _subsets_single_district(rng, bi, T, 6 if tier == "quick" else 14)
             for Cs in subs:
                 kinds = cands if len(cands) <= 4 else rng.sample(cands, 4)
@@ -265,7 +282,7 @@ def _gen_valid(rng, tier, n_graphs, nmax_eval):
                     case = dict(base, op="identify", C=sorted(Cs), T=sorted(T), topo=topo, q=q, qkind=kind)
                     out.append(case)
                     # chained: the estimand returned for Q[C] becomes the given c-factor of the next call
-                    if len(Cs) >= 2 and evaluate and rng.random() < 0.5:
+                    if len(Cs) >= 2 and evaluate and rng.random() < 0.5 and _TIMEOUTS["n"] < 2:
                         status, val = _call(case)
                         if status == "ok" and val is not None:
                             for C2 in _subsets_single_district(rng, bi, Cs, 2):
@@ -327,6 +344,389 @@ def _q_of_some_set(rng, V, di, bi, dists):
     return A, eSum(sorted(set(T) - A), q), "distanc_" + kind
 
 
+# ------------------------------------------------------------------------------------------ structured generators
+
+ALL_QFORMS = {"prob", "pprob", "prob_pa", "pprob_pa", "prob_redundant", "prod", "pprod", "frac", "sum", "iprob",
+              "iprob_all", "ipprob", "iprob_mixed", "fracform", "frac_sum", "sum_desc"}
+
+
+def identify_trace(di, bi, Cs, T):
+    """Tian-Pearl IDENTIFY on SETS only (Figure 7 of the paper, no expressions): the list of recursive steps
+    (T, A, T') and the verdict 'ok' (A = C reached) / 'fail' (A = T reached).  Used to steer the generators and to tag
+    the cases by recursion depth; never used as an oracle."""
+    Cs, T = set(Cs), set(T)
+    steps = []
+    while True:
+        A = S.ancestors_in(di, T, Cs)
+        if A == Cs:
+            return steps, "ok"
+        if A == T:
+            return steps, "fail"
+        Tp = next(set(d) for d in S.districts_of(bi, A) if Cs <= d)
+        steps.append((sorted(T), sorted(A), sorted(Tp)))
+        T = Tp
+
+
+def _orders(rng, V, di, k, must=None):
+    """up to k linear extensions of (V, di): all of them when there are at most k; `must` (a predicate on orders)
+    is honoured by at least one of the chosen orders whenever some linear extension satisfies it"""
+    alle = S.all_linear_extensions(V, di, limit=240)
+    if len(alle) <= k:
+        return alle
+    pick = rng.sample(alle, k)
+    if must is not None and not any(must(o) for o in pick):
+        good = [o for o in alle if must(o)]
+        if good:
+            pick[-1] = rng.choice(good)
+    return pick
+
+
+def _grow_district(rng, depth, base, csize=None):
+    """a single-district T (local ids 0..k-1) and C inside it whose IDENTIFY trace has exactly `depth` recursive
+    steps: every level adds a connector p (ancestor of C whose only bidirected edge goes to y) and a non-ancestor y
+    (removed by A = An(C)), so that A = T' u {p} and the district of C in G_A is the previous T'.
+    base: 'AeqC' (T0 = C u {non-ancestor}), 'TeqC' (T0 = C), 'fail' (T0 = C u {a0}, a0 -> C, a0 <-> C: A = T0)."""
+    csize = rng.choice([1, 1, 2, 3]) if csize is None else csize
+    Cs = list(range(csize))
+    di, bi = set(), set()
+    for i in range(1, csize):
+        bi.add((rng.randrange(i), i))
+    for i in range(csize):
+        for j in range(i + 1, csize):
+            if rng.random() < 0.4:
+                di.add((i, j))
+    T = list(Cs)
+    n = csize
+    if base == "AeqC":
+        y = n
+        n += 1
+        bi.add((rng.choice(Cs), y))
+        for c in Cs:
+            if rng.random() < 0.5:
+                di.add((c, y))
+        T.append(y)
+    elif base == "fail":
+        a = n
+        n += 1
+        bi.add((rng.choice(Cs), a))
+        di.add((a, rng.choice(Cs)))
+        T.append(a)
+    for _ in range(depth):
+        anc = S.ancestors_in(di, T, Cs)
+        nonanc = [v for v in T if v not in anc]
+        p, y = n, n + 1
+        n += 2
+        di.add((p, rng.choice(sorted(anc))))
+        for v in nonanc:
+            di.add((v, p))
+        bi.add((p, y))
+        bi.add((y, rng.choice(T)))
+        for v in T + [p]:
+            if rng.random() < 0.3:
+                di.add((v, y))
+        T += [p, y]
+    return T, sorted(di), sorted(bi), Cs
+
+
+def _decorate(rng, T, di, bi, Cs, depth, verdict, tries):
+    """random extra edges inside T that keep the graph acyclic and the IDENTIFY trace (depth, verdict) unchanged"""
+    di, bi = list(di), list(bi)
+    for _ in range(tries if len(T) >= 2 else 0):
+        a, b = rng.sample(T, 2)
+        if rng.random() < 0.6:
+            if (a, b) in di or (b, a) in di:
+                continue
+            cand_di, cand_bi = di + [(a, b)], bi
+        else:
+            if (a, b) in bi or (b, a) in bi:
+                continue
+            cand_di, cand_bi = di, bi + [(a, b)]
+        if not S.is_acyclic(T, cand_di):
+            continue
+        st, vd = identify_trace(cand_di, cand_bi, Cs, T)
+        if len(st) == depth and vd == verdict:
+            di, bi = cand_di, cand_bi
+    return di, bi
+
+
+def _eval_cost(V, di, bi):
+    """work of the exact oracle on an all-binary model: per district 2^(members + parents + latents) * members"""
+    tot = 0
+    for d in S.districts_of(bi, V):
+        W = set(d) | {u for (u, w) in di if w in d}
+        lat = sum(1 for e in bi if set(e) <= set(d))
+        tot += (2 ** (len(W) + lat)) * len(d)
+    return tot + 4 ** len(V)
+
+
+def _structured_graph(rng, depth, nz, nd):
+    """(g, T, C, depth, verdict) in integer space: a district T grown to the wanted recursion depth, nz outside
+    parents Z (no bidirected edge into T, so T stays a district of G) and nd descendants outside T"""
+    for _ in range(50):
+        base = rng.choice(["AeqC", "AeqC", "TeqC", "fail"]) if depth else rng.choice(["AeqC", "TeqC", "fail"])
+        # keep the whole graph within 8 nodes (all-binary exact evaluation): |T| = |C| + (0|1) + 2 * depth
+        csize = {0: None, 1: None, 2: rng.choice([1, 1, 2])}.get(depth, 1)
+        T, di, bi, Cs = _grow_district(rng, depth, base, csize)
+        room = 8 - len(T)
+        if room < 0:
+            continue
+        nz, nd = min(nz, room), min(nd, max(0, room - nz))
+        if not S.is_acyclic(T, di) or len(S.districts_of(bi, T)) != 1:
+            continue
+        st, verdict = identify_trace(di, bi, Cs, T)
+        if len(st) != depth:
+            continue
+        di, bi = _decorate(rng, T, di, bi, Cs, depth, verdict, tries=rng.choice([0, 2, 5]))
+        n = len(T)
+        Z = list(range(n, n + nz))
+        D = list(range(n + nz, n + nz + nd))
+        di = list(di)
+        bi = list(bi)
+        for z in Z:
+            kids = rng.sample(T, min(len(T), rng.choice([1, 1, 2, 3])))
+            if rng.random() < 0.7:                    # make the outside parent matter for C
+                kids.append(rng.choice(sorted(S.ancestors_in(di, T, Cs))))
+            di += [(z, k) for k in set(kids)]
+        if len(Z) == 2:
+            r = rng.random()
+            if r < 0.3:
+                di.append((Z[0], Z[1]))
+            elif r < 0.5:
+                bi.append((Z[0], Z[1]))
+        for d in D:
+            di.append((rng.choice(T), d))
+            if Z and rng.random() < 0.4:
+                di.append((rng.choice(Z), d))
+        # names: Z first (lowest integers = alphabetically first) half of the time, otherwise any injection
+        total = n + nz + nd
+        if rng.random() < 0.5:
+            lowz = list(range(nz))
+            rest = list(range(nz, total))
+            rng.shuffle(rest)
+            ren = dict(zip(Z, lowz))
+            ren.update(zip(T + D, rest))
+        else:
+            perm = list(range(total))
+            rng.shuffle(perm)
+            ren = dict(zip(T + Z + D, perm))
+        di2 = [[ren[a], ren[b]] for a, b in di]
+        bi2 = [[ren[a], ren[b]] if rng.random() < 0.5 else [ren[b], ren[a]] for a, b in bi]
+        rng.shuffle(di2)
+        rng.shuffle(bi2)
+        nodes = [ren[v] for v in T + Z + D]
+        rng.shuffle(nodes)
+        g = {"nodes": nodes, "di": di2, "bi": bi2}
+        return g, sorted(ren[v] for v in T), sorted(ren[v] for v in Cs), depth, verdict
+    return None
+
+
+def _gen_recursion(rng, tier, plan):
+    """IDENTIFY cases with a prescribed recursion depth, every form of Q[T], several (all, when few) topological
+    orders.  plan: list of (depth, number of graphs)."""
+    out = []
+    for depth, count in plan:
+        for _ in range(count):
+            nz = rng.choice([1, 1, 1, 2, 0])
+            nd = rng.choice([0, 1])
+            if depth >= 3:
+                nz, nd = rng.choice([0, 1]), 0
+            sg = _structured_graph(rng, depth, nz, nd)
+            if sg is None:
+                continue
+            g, T, Cs0, _, _ = sg
+            V = G.all_nodes(g)
+            di = [tuple(e) for e in g["di"]]
+            bi = [tuple(e) for e in g["bi"]]
+            binary = len(V) >= 6
+            evaluate = _eval_cost(V, di, bi) <= (3e5 if tier == "quick" else 2e6)
+            base = {"g": g, "scm_seed": rng.randrange(1 << 30), "evaluate": evaluate, "q_by_construction": True}
+            if binary:
+                base["cards"] = [2]
+            # the designed C plus neighbours: other single-district subsets of T that also recurse
+            subs = [Cs0]
+            others = [c for c in _subsets_single_district(rng, bi, T, 12)
+                      if sorted(c) != Cs0 and len(identify_trace(di, bi, c, T)[0]) >= 1]
+            rng.shuffle(others)
+            subs += [sorted(c) for c in others[:2 if depth < 3 else 1]]
+            cands = _district_q_candidates(rng, g, T, V, di, want=ALL_QFORMS)
+            for Cs in subs:
+                for kind, q in cands:
+                    many = kind in ("prob", "prob_pa", "pprob", "iprob", "iprob_mixed")
+                    k = (4 if many else 1) if tier == "quick" else (8 if many else 3)
+                    if depth >= 2 and q[0] not in ("P", "PP") and (len(V) > 7 or rng.random() < (0.5 if depth == 2 else 0.8)):
+                        continue        # nested Lemma-4 ratios: the estimand doubles in size with every level
+                    for topo in _orders(rng, V, di, k):
+                        topo = list(topo)
+                        if rng.random() < 0.1:
+                            topo.insert(rng.randrange(len(topo) + 1), 95)
+                        out.append(dict(base, op="identify", C=Cs, T=T, topo=topo, q=q, qkind="S_" + kind))
+            # the intermediate objects of the recursion, called directly: (A, Q[A]) -> Q[T'] for every district of G_A
+            steps, _ = identify_trace(di, bi, Cs0, T)
+            for (Tk, Ak, Tpk) in steps[:1]:
+                forms = _subset_q_candidates(rng, T, Ak, cands)
+                if tier == "quick" and len(forms) > 6:
+                    forms = rng.sample(forms, 6)
+                out += _cfactor_cases(rng, tier, base, V, di, bi, set(Ak), forms, "S_anc_of_T")
+    return out
+
+
+def _subset_q_candidates(rng, T, A, cands):
+    """expressions for Q[A], A an ancestral subset of the district T, from the candidates for Q[T]:
+    Sum_{T\\A} Q[T] (Lemma 3) for every form, and the marginal probability with the same conditioning set /
+    intervention for the bare probabilities (what IDENTIFY builds itself)"""
+    out = []
+    rest = sorted(set(T) - set(A))
+    for kind, q in cands:
+        if kind == "prob_redundant":
+            continue
+        out.append(("sumof_" + kind, eSum(rest, q)))
+        if q[0] in ("P", "PP"):
+            k = 1 if q[0] == "P" else 2
+            ch = [v for v in q[k] if int(v[1]) in set(A)]
+            out.append(("marg_" + kind, q[:k] + [ch, q[k + 1]]))
+    return out
+
+
+def _cfactor_cases(rng, tier, base, V, di, bi, H, qforms, label):
+    """direct calls of the five c-factor routines on (H, Q[H]) for every form, every district of G_H, several
+    orders (one of them, when it exists, putting a variable outside the requested district last)"""
+    out = []
+    H = set(H)
+    hd = [sorted(d) for d in S.districts_of(bi, H)]
+    hdi = [e for e in di if e[0] in H and e[1] in H]
+    k = 3 if tier == "quick" else 6
+    for kind, q in qforms:
+        tag = label + "_" + kind
+        for d in hd:
+            last_outside = lambda o, d=d: [v for v in o if v in H][-1] not in d  # noqa: E731
+            for topo in _orders(rng, V, di, k, must=last_outside):
+                topo = list(topo)
+                htopo = [v for v in topo if v in H]
+                dd = list(d)
+                rng.shuffle(dd)
+                if rng.random() < 0.1:
+                    topo.insert(rng.randrange(len(topo) + 1), 96)
+                out.append(dict(base, op="c_factor", district=dd, H=sorted(H), topo=topo, q=q, qkind=tag))
+                if rng.random() < 0.5:
+                    out.append(dict(base, op="lemma4", district=dd, H=sorted(H), topo=htopo, q=q, qkind=tag))
+                if q[0] in ("P", "PP") and rng.random() < 0.5:
+                    out.append(dict(base, op="lemma1", district=dd, H=sorted(H), topo=htopo, q=q, qkind=tag))
+        topo = S.random_linear_extension(rng, V, di)
+        htopo = [v for v in topo if v in H]
+        for vtx in rng.sample(htopo + [None], min(2, len(htopo) + 1)):
+            out.append(dict(base, op="low_index", vertex=vtx, H=sorted(H), topo=htopo, q=q, qkind=tag))
+        A = sorted(S.ancestors_in(hdi, H, G.rand_subset(rng, sorted(H), p=rng.choice([0.3, 0.6]))))
+        out.append(dict(base, op="ancestral", A=A, H=sorted(H), topo=topo, q=q, qkind=tag))
+    return out
+
+
+def _whole_graph_qforms(rng, V, di, H):
+    """expressions for Q[H], H an ancestral set of G: P(H), PP(H), Sum_{V\\H} P(V), Sum of the chain-rule product,
+    the chain-rule product of H itself, P(H)/1 and the Lemma-4 style product of ratios"""
+    H = set(H)
+    hs = sorted(H)
+    rest = sorted(set(V) - H)
+    joint = eP(sorted(V))
+    order = S.random_linear_extension(rng, V, di)
+    horder = [v for v in order if v in H]
+    chain_v = eProd([eP([t], sorted(order[:i])) for i, t in enumerate(order)])
+    chain_h = eProd([eP([t], sorted(horder[:i])) for i, t in enumerate(horder)])
+    out = [("prob", eP(hs)), ("pprob", eP(hs, pop=1002)), ("frac1", ["frac", eP(hs), "one"])]
+    if rest:
+        out.append(("sum", eSum(rest, joint)))
+        out.append(("sumchain", eSum(rest, chain_v)))
+    if len(horder) > 1:
+        out.append(("chain", chain_h))
+        ph = eP(hs)
+        out.append(("ratios", eProd([["frac", eSum(horder[i + 1:], ph), eSum(horder[i:], ph)] if i else
+                                      eSum(horder[1:], ph) for i in range(len(horder))])))
+    return out
+
+
+def _gen_cfactor(rng, tier, n_graphs):
+    """direct calls of the c-factor routines: graphs with >= 2 districts (a district chain broken by directed-only
+    nodes), H = V and every ancestral set with >= 2 districts, every expression form, every district, orders chosen
+    among ALL linear extensions"""
+    out = []
+    made = 0
+    while made < n_graphs:
+        n = rng.choice([3, 4, 4, 5, 5])
+        g = G.rand_graph(rng, n, n, acyclic=True, pd=rng.choice([0.3, 0.5, 0.7]), pb=rng.choice([0.15, 0.25, 0.4]))
+        V = G.all_nodes(g)
+        di = [tuple(e) for e in g["di"]]
+        bi = [tuple(e) for e in g["bi"]]
+        if len(V) < 3 or len(S.districts_of(bi, V)) < 2 or _eval_cost(V, di, bi) > 3e5:
+            continue
+        made += 1
+        base = {"g": g, "scm_seed": rng.randrange(1 << 30), "evaluate": True, "q_by_construction": True}
+        ancs = {frozenset(S.ancestors_in(di, V, G.rand_subset(rng, V, p=0.5))) for _ in range(6)}
+        ancs = [set(a) for a in ancs if len(a) >= 2 and len(S.districts_of(bi, a)) >= 2 and set(a) != set(V)]
+        rng.shuffle(ancs)
+        for H in [set(V)] + ancs[:1]:
+            forms = _whole_graph_qforms(rng, V, di, H)
+            if tier == "quick" and len(forms) > 5:
+                forms = forms[:1] + rng.sample(forms[1:], 4)
+            out += _cfactor_cases(rng, tier, base, V, di, bi, H, forms, "S_anc")
+    return out
+
+
+def _gen_semantic_probs(rng, tier, n_graphs):
+    """EVERY single-world probability expression over a small graph as candidate for Q[T]: P_w(T u E | Z) for every
+    disjoint choice of intervened variables w and conditioning variables Z outside T, plus redundant children E taken
+    from Z u w.  The oracle's hypothesis check keeps exactly those that DENOTE Q[T] on the random models (whatever
+    their syntactic shape); IDENTIFY must then be right on them.  This probes the semantic reading of the property
+    ("an expression for its c-factor") beyond the syntactic hypothesis ProbShape of the Lean theorem."""
+    out = []
+    made = 0
+    while made < n_graphs:
+        if rng.random() < 0.5:
+            sg = _structured_graph(rng, rng.choice([0, 1, 1]), rng.choice([1, 2]), rng.choice([0, 1]))
+            if sg is None:
+                continue
+            g, T, _, _, _ = sg
+            Ts = [T]
+        else:
+            n = rng.choice([3, 4, 4, 5])
+            g = G.rand_graph(rng, n, n, acyclic=True, pd=rng.choice([0.3, 0.5]), pb=rng.choice([0.2, 0.35, 0.5]))
+            Ts = None
+        V = G.all_nodes(g)
+        di = [tuple(e) for e in g["di"]]
+        bi = [tuple(e) for e in g["bi"]]
+        if len(V) < 3 or len(V) > 6 or _eval_cost(V, di, bi) > 2e5:
+            continue
+        if Ts is None:
+            Ts = [sorted(d) for d in S.districts_of(bi, V) if 2 <= len(d) < len(V)][:1]
+            if not Ts:
+                continue
+        made += 1
+        base = {"g": g, "scm_seed": rng.randrange(1 << 30), "evaluate": True}
+        if len(V) >= 6:
+            base["cards"] = [2]
+        for T in Ts:
+            rest = [v for v in V if v not in T]
+            subs = [sorted(c) for c in _subsets_single_district(rng, bi, T, 6)]
+            rec = [c for c in subs if len(identify_trace(di, bi, c, T)[0]) >= 1]
+            Cs = (rec[:2] + [c for c in subs if c not in rec][:1]) or subs[:1]
+            # every assignment of the outside variables to {intervened, conditioned on, absent}
+            roles = list(itt.product("wz-", repeat=len(rest)))
+            if len(roles) > 27:
+                roles = rng.sample(roles, 27)
+            for role in roles:
+                w = [v for v, r in zip(rest, role) if r == "w"]
+                Z = [v for v, r in zip(rest, role) if r == "z"]
+                extras = [v for v in w + Z if rng.random() < 0.25]
+                for pop in (None, 1005) if rng.random() < 0.3 else (None,):
+                    q = eP(sorted(T) + extras, Z, pop=pop, dos=w)
+                    kind = f"semP_w{len(w)}_z{len(Z)}_x{min(len(extras), 1)}"
+                    for Cs1 in Cs:
+                        topo = S.random_linear_extension(rng, V, di)
+                        out.append(dict(base, op="identify", C=Cs1, T=sorted(T), topo=topo, q=q, qkind=kind))
+                    if rng.random() < 0.3:
+                        topo = S.random_linear_extension(rng, V, di)
+                        out.append(dict(base, op="c_factor", district=sorted(T), H=sorted(T), topo=topo, q=q, qkind=kind))
+    return out
+
+
 def _gen_malformed(rng, n):
     out = []
     exprs = ["one", "zero", ["Q", [pv(0)], [pv(1)]], eP([0, 1]), eP([0], [1], pop=1001),
@@ -374,9 +774,15 @@ def _corpus():
 def cases(rng: random.Random, tier: str):
     out = _corpus()
     if tier == "quick":
-        out += _gen_valid(rng, tier, 220, 5)
-        out += _gen_malformed(rng, 500)
+        out += _gen_recursion(rng, tier, [(0, 6), (1, 34), (2, 22), (3, 14)])
+        out += _gen_cfactor(rng, tier, 45)
+        out += _gen_semantic_probs(rng, tier, 40)
+        out += _gen_valid(rng, tier, 110, 5)
+        out += _gen_malformed(rng, 400)
     else:
+        out += _gen_recursion(rng, tier, [(0, 20), (1, 120), (2, 80), (3, 30), (4, 6)])
+        out += _gen_cfactor(rng, tier, 200)
+        out += _gen_semantic_probs(rng, tier, 200)
         out += _gen_valid(rng, tier, 1000, 5)
         out += _gen_valid(rng, tier, 300, 6)
         out += _gen_malformed(rng, 3000)
@@ -385,7 +791,39 @@ def cases(rng: random.Random, tier: str):
 
 # ------------------------------------------------------------------------------------------ real code
 
+class _CallTimeout(BaseException):
+    pass
+
+
+def _on_alarm(signum, frame):
+    raise _CallTimeout()
+
+
+_TIMEOUTS = {"n": 0}
+
+
 def _call(case):
+    """the real function under a CPU-time guard (ITIMER_VIRTUAL: user CPU time of this process, independent of the
+    load of the machine).  The slowest valid case of the quick stream needs 0.2 s; a run that burns 5 s (a runaway
+    recursion: every level of IDENTIFY doubles the work of sorting the nested ratios) is reported as an exception.
+    After two such runs in one process the guard drops to 0.5 s, chained generation and shrinking stop, so that a
+    systematic hang still ends in a couple of minutes with a VIOLATION (never reached on a tree without such a hang)."""
+    import signal
+
+    limit = 5.0 if _TIMEOUTS["n"] < 2 else 0.5
+    old = signal.signal(signal.SIGVTALRM, _on_alarm)
+    signal.setitimer(signal.ITIMER_VIRTUAL, limit)
+    try:
+        return _call_unguarded(case)
+    except _CallTimeout:
+        _TIMEOUTS["n"] += 1
+        return "err", f"Timeout: no result after {limit} s of CPU time"
+    finally:
+        signal.setitimer(signal.ITIMER_VIRTUAL, 0)
+        signal.signal(signal.SIGVTALRM, old)
+
+
+def _call_unguarded(case):
     """run the real function; returns ("ok", encoded expr | None) or ("err", exception class name)"""
     import networkx as nx
     from y0.algorithm import tian_id as tid
@@ -436,13 +874,22 @@ def _py_out(status, val):
 
 # ------------------------------------------------------------------------------------------ oracle
 
-@functools.lru_cache(maxsize=6)
-def _model(gkey, seed, which):
+@functools.lru_cache(maxsize=8)
+def _model_c(gkey, seed, which, cards):
     g = json.loads(gkey)
     V = G.all_nodes(g)
     rng = random.Random(seed * 31 + which)
-    scm = S.Scm(V, g["di"], g["bi"], rng, cards=(2, 3) if len(V) <= 4 else (2, 2, 3))
+    if cards is None:
+        cards = (2, 3) if len(V) <= 4 else (2, 2, 3)
+    scm = S.Scm(V, g["di"], g["bi"], rng, cards=cards, extra_latents=len(V) <= 6)
     return scm, S.Evaluator(scm)
+
+
+def _model(case, which):
+    """the two shared random models of a case (cached per graph: all cases of one graph evaluate on the same
+    tables; Scm caches Q[S] per set and per latent-connected group, the Evaluator caches every sub-expression)"""
+    cards = tuple(case["cards"]) if case.get("cards") else None
+    return _model_c(json.dumps(case["g"], sort_keys=True), case.get("scm_seed", 0), which, cards)
 
 
 def _preconditions(case):
@@ -504,10 +951,9 @@ def _oracle(case, status, val):
         if status == "err" and case.get("q_by_construction"):
             return f"{case['op']}: raised {val} on an input that satisfies the preconditions", info
         return None, info
-    gkey = json.dumps(case["g"], sort_keys=True)
     hyp = True
     for which in (0, 1):
-        scm, ev = _model(gkey, case.get("scm_seed", 0), which)
+        scm, ev = _model(case, which)
         try:
             bad = ev.equals_full(case["q"], scm.q(given))
         except (S.Unsupported, S.DivisionByZero):
@@ -527,7 +973,7 @@ def _oracle(case, status, val):
         return None, info
     info["result"] = "expr"
     for which in (0, 1):
-        scm, ev = _model(gkey, case.get("scm_seed", 0), which)
+        scm, ev = _model(case, which)
         try:
             diff = ev.equals_full(val, scm.q(target))
         except S.DivisionByZero:
@@ -551,14 +997,37 @@ def run_python(case):
             "outcome": "err:" + str(val) if status == "err" else ("none" if val is None else "expr"),
             "valid": info.get("valid"), "hypothesis_holds": info.get("hypothesis"),
             "qtype": case["q"] if isinstance(case["q"], str) else case["q"][0]}
+    di = [tuple(e) for e in g["di"]]
+    bi = [tuple(e) for e in g["bi"]]
+    q = case["q"]
+    qform = tags["qtype"]
+    if qform in ("P", "PP"):
+        k = 1 if qform == "P" else 2
+        cond = bool(q[k + 1])
+        do = any(v[4] for v in q[k] + q[k + 1])
+        qform += ("[do]" if do else "") + ("(T|Z)" if cond else "(T)")
     if case["op"] == "identify" and info.get("valid"):
-        di = [tuple(e) for e in g["di"]]
+        steps, verdict = identify_trace(di, bi, case["C"], case["T"])
         A = S.ancestors_in(di, case["T"], case["C"])
         branch = "A=C" if A == set(case["C"]) else ("A=T" if A == set(case["T"]) else "recurse")
         tags["branch"] = branch + "/" + tags["qtype"]
         nontrivial = nontrivial and branch == "recurse"
+        if info.get("hypothesis"):
+            # shape of the run, computed from the case itself (not from the generator's intention)
+            tags["shape"] = f"identify/depth{len(steps)}/{verdict}/{qform}"
+            tags["depth"] = len(steps)
+            if len(steps) >= 1 and qform == "P(T|Z)":
+                tags["target_shape"] = "C17a:cond-plain-P,recursive" + (",depth>=2" if len(steps) >= 2 else "")
     elif info.get("valid"):
         nontrivial = nontrivial and len(case["H"]) >= 2
+        if info.get("hypothesis"):
+            H = set(case["H"])
+            nd = len(S.districts_of(bi, H))
+            tags["shape"] = f"{case['op']}/{qform}/districts={min(nd, 3)}{'+' if nd > 3 else ''}"
+            if case["op"] in ("c_factor", "lemma4") and nd >= 2 and tags["qtype"] in ("prod", "sum", "frac"):
+                htopo = [v for v in case["topo"] if v in H]
+                if htopo and htopo[-1] not in set(case["district"]):
+                    tags["target_shape"] = f"C17b:{case['op']},lemma4-form,>=2districts,last-var-outside-district"
     return {"out": out, "fail": fail, "nontrivial": nontrivial, "tags": tags}
 
 
@@ -585,6 +1054,41 @@ def request(case):
 DRIFT = {"n": 0}
 
 
+class _ModelOut(list):
+    """the canonical model output; compared with the canonical Python output structurally first and - only if they
+    differ - by exact evaluation of both expressions on the shared random models (the real code is re-run for that)"""
+
+    def bind(self, case, body):
+        self._case, self._body = case, body
+        return self
+
+    def __eq__(self, other):
+        if list.__eq__(self, other):
+            return True
+        return self._fallback(other)
+
+    def __ne__(self, other):
+        return not self.__eq__(other)
+
+    __hash__ = None
+
+    def _fallback(self, py):
+        import time
+        case = self._case
+        if not (isinstance(py, list) and py[:1] == ["ok"] and len(py) == 2 and py[1] != "none"):
+            return False
+        if DRIFT.get("spent", 0.0) > 90.0 or not case.get("evaluate", True):   # budget of the fall-back (s per run)
+            return False
+        t0 = time.time()
+        try:
+            status, val = _call(case)
+            if status != "ok" or val is None:
+                return False
+            return _same_by_evaluation(case, val, self._body, py, list(self)[1]) == py
+        finally:
+            DRIFT["spent"] = DRIFT.get("spent", 0.0) + time.time() - t0
+
+
 def canon_model(case, rep):
     if rep[0] == "err":
         return ["err"]
@@ -593,28 +1097,14 @@ def canon_model(case, rep):
     body = rep[1]
     if body == "none":
         return ["ok", "none"]
-    m = canon_expr(body)[0]
-    # structural comparison first; on a structural difference fall back to exact evaluation on a shared model
-    status, val = _call(case)
-    py = _py_out(status, val)
-    if py == ["ok", m] or status != "ok" or val is None:
-        return ["ok", m]
-    import time
-    if DRIFT.get("spent", 0.0) > 90.0:      # budget of the evaluation fall-back (seconds per run)
-        return ["ok", m]
-    t0 = time.time()
-    try:
-        return _same_by_evaluation(case, val, body, py, m)
-    finally:
-        DRIFT["spent"] = DRIFT.get("spent", 0.0) + time.time() - t0
+    return _ModelOut(["ok", canon_expr(body)[0]]).bind(case, body)
 
 
 def _same_by_evaluation(case, val, body, py, m):
     try:
-        gkey = json.dumps(case["g"], sort_keys=True)
         for which in (0, 1):
-            scm, ev = _model(gkey, case.get("scm_seed", 0), which)
-            if len(scm.nodes) > 6 or not ev.same(val, body):
+            scm, ev = _model(case, which)
+            if len(scm.nodes) > 8 or not ev.same(val, body):
                 return ["ok", m]
     except (S.Unsupported, S.DivisionByZero, KeyError):
         return ["ok", m]
@@ -635,6 +1125,8 @@ def _restrict_q(q, live):
 
 
 def shrink(case):
+    if _TIMEOUTS["n"] >= 3:         # the real code hangs: every candidate would cost a time-out
+        return
     for g in G.shrink_graph(case["g"]):
         live = set(G.all_nodes(g))
         c = dict(case)
@@ -674,7 +1166,9 @@ MANIFEST = {
              "exact-rational SCM oracle (Q[C] as the distribution under do(V\\C)) evaluates every returned "
              "expression at every assignment; that oracle found the defect fixed in 010d659 (Lemma 1 dropped "
              "intervention subscripts). One clause is narrower than the property: a bare Probability given as Q[T] must "
-             "have the shape P_w(T | Z) (hypothesis ProbShape)."),
+             "have the shape P_w(T u E | Z), E redundant (hypothesis ProbShape); cfactor_output_shape and "
+             "tian_sound_ctftr_caller show that the one caller inside y0 (Algorithm 4 of ctf-TR: compute_c_factor "
+             "followed by IDENTIFY) always supplies it."),
     "note": ("Trusted: Lean kernel; axioms propext/Classical.choice/Quot.sound; the specifications Y0/Spec/{Prob,Sem,Scm,"
              "TianSpec}.lean (model class: discrete, positive, independent root latents); the hand-written model of "
              "tian_id.py and of the dsl.py constructors it uses, tied to the code by sampling; networkx/sorted/frozenset "
